@@ -417,10 +417,10 @@ static void recPrg(void)
 		{
 			size_t kl = keyed ? (idx % 3 == 0 ? l / 8 : idx % 3 == 1 ? l / 8 + 4 : 60) : 0, al = idx % 4 == 0 ? 0 : idx % 4 == 1 ? 4 : idx % 4 == 2 ? 32 : 60;
 			size_t r = keyed ? (1536 - l - d * l / 2) / 8 : (1536 - 2 * d * l) / 8;
-			size_t x1c[] = {0, 1, r - 1, r, r + 1, 2 * r, 2 * r + 3}, x1l = x1c[c], x2l = idx % 2 ? 5 : r, n = idx % 3 ? 32 : r + 1, alen = idx % 3 == 0 ? 0 : idx % 3 == 1 ? 7 : r;
+			size_t x1c[] = {0, 1, r - 1, r, r + 1, 2 * r, 2 * r + 3}, x1l = x1c[c], x2l = c == 0 ? 0 : idx % 2 ? 5 : r,	/* class 0: both texts empty - a command with no data still is a command */ n = idx % 3 ? 32 : r + 1, alen = idx % 3 == 0 ? 0 : idx % 3 == 1 ? 7 : r;
 			octet* ann; octet* key; octet* a; octet* x1; octet* x2; octet* y1; octet* y2; octet* t; octet* dx1; octet* dx2; octet* dt; octet* sy1; octet* sy2; octet* st_;
 			void* st; void* st2; void* st3; const prg_view* pv;
-			if (!thorough && (c + idx / 7) % 7 > 1) continue;		/* quick: two of the seven length classes per (l, d, mode), rotating */
+			if (!thorough && c != 0 && (c + idx / 7) % 7 > 1) continue;		/* quick: two of the seven length classes per (l, d, mode), rotating */
 			ann = (octet*)xalloc(al); key = (octet*)xalloc(kl); a = (octet*)xalloc(alen); x1 = (octet*)xalloc(x1l); x2 = (octet*)xalloc(x2l);
 			vxRandBuf(ann, al); vxRandBuf(key, kl); vxRandBuf(a, alen); vxRandBuf(x1, x1l); vxRandBuf(x2, x2l);
 			y1 = (octet*)xdup(x1, x1l); y2 = (octet*)xdup(x2, x2l); t = (octet*)xalloc(n);
